@@ -147,17 +147,18 @@ example (env : SimEnv) (s0 : Sys) (hw : Sys.WFConfig s0) :
   rcases hx with rfl | rfl | rfl | rfl | rfl <;> simp
 
 /-- a run in which a task body is resumed before the monitor inside an instant: `precW0` with the
-delay script `[3]`.  After 72 kernel steps instant 10 begins (10 rows, nothing pending before 10):
+delay script `[3]`.  After 78 kernel steps instant 11 begins (11 rows, nothing pending before 11):
 the body of `precB` is alive and one task is running.  The next event is the body's last block
-(process 14), which ends the body; then the monitor writes row 10 — with `running = 1`, the state
+(process 14), which ends the body; then the monitor writes row 11 — with `running = 1`, the state
 at the beginning of the instant. -/
+-- F13: 78 steps / instant 11 (before the repair 72 steps / instant 10: `precB` starts one step later)
 example : ∃ kB k k' : SimState, SimReach { delayScript := [3] } Sys.precW0 kB ∧
-    (∀ x ∈ kB.heap, ((kB.st.rows.length : Nat) : Time) ≤ x.time) ∧ kB.st.rows.length = 10 ∧
+    (∀ x ∈ kB.heap, ((kB.st.rows.length : Nat) : Time) ≤ x.time) ∧ kB.st.rows.length = 11 ∧
     QuietTo { delayScript := [3] } kB k ∧ kB.st.active = [(0, Sys.precB)] ∧ k.st.active = [] ∧
-    k'.st.rows = kB.st.rows ++ [kB.st.mkRow 10] ∧ (kB.st.mkRow 10).running = 1 := by
-  obtain ⟨h1, h2, h3, h4, h5, h6, h7⟩ := rowSim72
-  generalize hkB : ilSimSteps { delayScript := [3] } 72 (SimState.start Sys.precW0) = kB at *
-  have hreach : SimReach { delayScript := [3] } Sys.precW0 kB := hkB ▸ SimReach.start.steps 72
+    k'.st.rows = kB.st.rows ++ [kB.st.mkRow 11] ∧ (kB.st.mkRow 11).running = 1 := by
+  obtain ⟨h1, h2, h3, h4, h5, h6, h7⟩ := rowSim78
+  generalize hkB : ilSimSteps { delayScript := [3] } 78 (SimState.start Sys.precW0) = kB at *
+  have hreach : SimReach { delayScript := [3] } Sys.precW0 kB := hkB ▸ SimReach.start.steps 78
   cases hp : kB.peek with
   | none => rw [hp] at h3; simp at h3
   | some e =>
